@@ -312,6 +312,29 @@ def execute(check, case, workdir):
     def viol(f, clause, kind, detail, stepno):
         res.violate('%s|%s|%s|%s' % (check, f, clause, kind), stepno, dict(detail, function=f, n_frames=n, n_atoms=int(w['xyz'].shape[1])))
 
+    if not sim:
+        # real-libgomp cross-check mode: the thread count comes from the environment; log a digest of every function's
+        # whole-trajectory result so that the driver can compare runs made under different OMP_NUM_THREADS
+        import hashlib
+        done = set()
+        for stepno, op in enumerate(case['ops']):
+            f = op['f']
+            if f in done:
+                continue
+            done.add(f)
+            res.steps += 1
+            out = evaluate(md, f, w, None, case['seed'] % 100000 + 17)
+            h = hashlib.sha256(repr([canon(x) for x in out]).encode()).hexdigest()[:16]
+            res.log.append('real %s %s' % (f, h))
+            res.trace.append((f, 'real'))
+            for i in range(n):
+                if FUNCS[f] == 'exact':
+                    a = evaluate(md, f, w, [i], case['seed'] % 100000 + 17)[0]
+                    if canon(a) != canon(out[i]):
+                        viol(f, 'context:alone', 'value_real_libgomp', {'frame': i, 'max_abs_diff': maxdiff(out[i], a)}, stepno)
+                        break
+        return res
+
     for stepno, op in enumerate(case['ops']):
         res.steps += 1
         f = op['f']
